@@ -187,10 +187,15 @@ def Tensor.var (t : Tensor α) : α :=
   if gt n one then div sigma (sub n one) else zero
 def Tensor.std (t : Tensor α) : α := sqrt t.var
 
-/-- window of `linearElemGeneratorWithReducedDim`: `[s, s+1)` everywhere, whole dimension at `dim` -/
-def windowOf (dim : Nat) (dims : List Nat) (stBE : List Nat) : List (Nat × Nat) :=
-  (List.range dims.length).map (fun i =>
-    if i = dim then (0, dims.getD i 0) else (stBE.getD i 0, stBE.getD i 0 + 1))
+/-- `[s, s+1)` in every dimension -/
+def unitWin (st : List Nat) : List (Nat × Nat) := st.map (fun s => (s, s + 1))
+
+/-- window of `linearElemGeneratorWithReducedDim`: `[s, s+1)` everywhere, the whole dimension at `dim`
+    (big-endian: `dims` and the state `st` in tensor order) -/
+def windowOf : Nat → List Nat → List Nat → List (Nat × Nat)
+  | 0, d :: _, _ :: st => (0, d) :: unitWin st
+  | dim + 1, _ :: ds, s :: st => (s, s + 1) :: windowOf dim ds st
+  | _, _, _ => []
 
 /-- `reduceDimUsingFunc(dim, trf)` -/
 def Tensor.reduceDimRaw (t : Tensor α) (dim : Nat) (trf : Tensor α → α) : Option (Tensor α) :=
